@@ -35,7 +35,7 @@ def extra(ctx):
     ctx.extra_obligations += len(routes)
     ctx.trusted.append("tools/routes (go/packages + go/types): recognises route registrations by the TYPE of the callee "
                        "(aghhttp.RegisterFunc, home.httpRegister, (*http.ServeMux).Handle/HandleFunc); anything it cannot "
-                       "resolve becomes an Unresolved entry, which the table theorem rejects; GOOS=linux build only")
+                       "resolve becomes an Unresolved entry, which the table theorem rejects; GOOS=linux and GOOS=windows builds, merged")
 
     src = os.path.join(ctx.workdir, "c11_offending.v")
     with open(src, "w") as f:
